@@ -26,6 +26,17 @@
 //!  * block: parks the calling thread (used to schedule lock acquisitions)
 
 use std::cell::RefCell;
+use std::sync::{Arc, Mutex};
+
+/// Handler for threads that have none of their own (threads the code under
+/// test spawns itself, e.g. the wallet updater). Process wide; consulted only
+/// when the calling thread installed no handler.
+static DEFAULT_HANDLER: Mutex<Option<Arc<dyn Fn(&str) -> bool + Send + Sync>>> = Mutex::new(None);
+
+/// Install (or remove) the process-wide default handler.
+pub fn set_default_handler(h: Option<Arc<dyn Fn(&str) -> bool + Send + Sync>>) {
+	*DEFAULT_HANDLER.lock().unwrap_or_else(|e| e.into_inner()) = h;
+}
 
 /// Panic payload used by harnesses to simulate a crash at a hook point
 #[derive(Debug, Clone)]
@@ -49,7 +60,16 @@ pub fn point(name: &str) -> bool {
 	// re-enters leaves the slot in a sane state
 	let h = HANDLER.with(|c| c.borrow_mut().take());
 	match h {
-		None => false,
+		None => {
+			let d = DEFAULT_HANDLER
+				.lock()
+				.unwrap_or_else(|e| e.into_inner())
+				.clone();
+			match d {
+				Some(f) => f(name),
+				None => false,
+			}
+		}
 		Some(mut f) => {
 			let r = std::panic::catch_unwind(std::panic::AssertUnwindSafe(|| f(name)));
 			HANDLER.with(|c| {
